@@ -1202,7 +1202,7 @@ func init() {
 			"porcupine timeouts in the stress part are counted, not judged",
 		},
 		Floors: func(tier string) map[string]int64 {
-			return map[string]int64{"explorer.executions": 10000, "explorer.programs-exhausted": 3000, "explorer.histories-linearizable": 5000, "stress.histories": 500, "stress.histories-linearizable": 300, "hammer.runs": 400, "hammer.pops": 100000, "duel.pairs": 300, "duel.trials": 1000000}
+			return map[string]int64{"explorer.executions": 10000, "explorer.programs-exhausted": 3000, "explorer.histories-linearizable": 5000, "stress.histories": 500, "stress.histories-linearizable": 300, "hammer.runs": 400, "hammer.pops": 100000, "duel.pairs": 300, "duel.trials": 400000}
 		},
 	})
 }
